@@ -36,6 +36,11 @@ N23 extend/append branches  if c: X.extend(a) else: X.append(b)             ->  
 N24 pd.DataFrame(data=X)    ->  pd.DataFrame(X)
 N25 keyword -> positional   leading keyword arguments of package callees (names defined once) in parameter order
 N26 tuple streams           [f(g, *t) for t in ((a, b) for ..)]             ->  [f(g, a, b) for ..]  (a, b effect-free)
+N27 list += [v]             X += [v]  (X a local bound to a list display / comprehension)  ->  X.append(v)
+N28 unpack via temporaries  a, b = E; T1 = a; T2 = b  (a, b bound nowhere else, read only there)  ->  T1, T2 = E
+                            (N16 also splits general target patterns position by position)
+N30 [*E]                    ->  list(E)
+N29 zip(range(len(X)), X)   as the iterable of a loop / comprehension that does not resize or rebind X  ->  enumerate(X)
 """
 from __future__ import annotations
 
@@ -172,6 +177,13 @@ class _Expr(ast.NodeTransformer):
         self.generic_visit(n)
         return ast.fix_missing_locations(_fuse_tuple_stream(_tuple_target(n)))
 
+    def visit_List(self, n):
+        # N30 [*E] -> list(E)
+        self.generic_visit(n)
+        if isinstance(n.ctx, ast.Load) and len(n.elts) == 1 and isinstance(n.elts[0], ast.Starred) and "list" not in SHADOWED_BUILTINS:
+            return _loc(ast.Call(func=ast.Name(id="list", ctx=ast.Load()), args=[n.elts[0].value], keywords=[]), n)
+        return n
+
     def visit_Call(self, n: ast.Call):
         self.generic_visit(n)
         f = n.func
@@ -200,6 +212,9 @@ class _Expr(ast.NodeTransformer):
         if d_ in ("pd.DataFrame", "pandas.DataFrame") and not n.args and n.keywords and n.keywords[0].arg == "data":
             n.args = [n.keywords[0].value]
             n.keywords = n.keywords[1:]
+        if isinstance(f, ast.Attribute) and f.attr == "seed" and isinstance(f.value, ast.Attribute) and f.value.attr == "random" \
+                and not n.args and len(n.keywords) == 1 and n.keywords[0].arg == "seed":
+            n.args, n.keywords = [n.keywords[0].value], []
         # N19 f(**{"a": x, "b": y}) with constant identifier keys -> f(a=x, b=y) (same evaluation order: the dict display
         # evaluates its values left to right where the keywords would)
         if any(k.arg is None and isinstance(k.value, ast.Dict) for k in n.keywords):
@@ -383,6 +398,17 @@ def _rewrite_block(stmts: list) -> list:
                     tgt = ast.Name(id=t_.id, ctx=ast.Store()) if isinstance(t_, ast.Name) else \
                         ast.Attribute(value=ast.Name(id="self", ctx=ast.Load()), attr=t_.attr, ctx=ast.Store())
                     out.append(_loc(ast.Assign(targets=[tgt], value=v_), st))
+                i += 1
+                continue
+        # N16b `(T1), (T2) = (a, b)` with arbitrary target patterns and plain-name values that the targets do not bind
+        if isinstance(st, ast.Assign) and len(st.targets) == 1 and isinstance(st.targets[0], (ast.Tuple, ast.List)) \
+                and isinstance(st.value, (ast.Tuple, ast.List)) and len(st.targets[0].elts) == len(st.value.elts) \
+                and all(isinstance(v_, ast.Name) for v_ in st.value.elts) \
+                and not any(isinstance(t_, ast.Starred) for t_ in st.targets[0].elts):
+            bound_ = {x.id for t_ in st.targets[0].elts for x in ast.walk(t_) if isinstance(x, ast.Name) and isinstance(x.ctx, ast.Store)}
+            if not (bound_ & {v_.id for v_ in st.value.elts}):
+                for t_, v_ in zip(st.targets[0].elts, st.value.elts):
+                    out.append(_loc(ast.Assign(targets=[t_], value=v_), st))
                 i += 1
                 continue
         # N9 if/else assigning the same name -> conditional expression
@@ -795,6 +821,7 @@ def _inline_private_helpers(t: ast.Module) -> None:
 
 
 # names defined more than once in the package (set by model.Program._load): possibly overridden methods, never spliced
+SHADOWED_BUILTINS: set = set()      # per module: builtin names the module rebinds (set by normalize_module)
 MULTI_DEF: frozenset = frozenset()
 # every identifier that appears in a `from .. import ..` statement anywhere in the package (set by model.Program._load)
 IMPORTED_NAMES: frozenset = frozenset()
@@ -1125,6 +1152,43 @@ def _eval_prefix_ok_node(stmt: ast.stmt, node: ast.AST) -> bool:
             if not _effect_free(ch):
                 return False
     return True
+
+
+def _fuse_unpack_through_temporaries(fn: ast.FunctionDef) -> None:
+    """N28: `a, b = E` followed by `T1 = a`, `T2 = b` (in that order; a and b are bound once and read only there) is
+    `T1, T2 = E`: E is evaluated once, the targets are stored in the same order."""
+    stores, loads = {}, {}
+    for n in ast.walk(fn):
+        if isinstance(n, ast.Name):
+            d = stores if isinstance(n.ctx, (ast.Store, ast.Del)) else loads
+            d[n.id] = d.get(n.id, 0) + 1
+    # candidate sites: (statement list, index, names)
+    sites = []
+    for stmts in _own_stmt_lists(fn):
+        for i, st in enumerate(stmts):
+            if isinstance(st, ast.Assign) and len(st.targets) == 1 and isinstance(st.targets[0], (ast.Tuple, ast.List)) \
+                    and all(isinstance(x, ast.Name) for x in st.targets[0].elts) and len(st.targets[0].elts) >= 2:
+                names = [x.id for x in st.targets[0].elts]
+                k = len(names)
+                nxt = stmts[i + 1:i + 1 + k]
+                if len(set(names)) == k and len(nxt) == k \
+                        and all(isinstance(x, ast.Assign) and len(x.targets) == 1 and isinstance(x.value, ast.Name) and x.value.id == nm
+                                and nm not in _names(x.targets[0]) for x, nm in zip(nxt, names)):
+                    sites.append((stmts, st, names))
+    per_name = {}
+    for (_l, _s, names) in sites:
+        for nm in names:
+            per_name[nm] = per_name.get(nm, 0) + 1
+    # every binding of the temporaries is such a site and every read is the adjacent one
+    good = {nm for nm, c in per_name.items() if stores.get(nm, 0) == c and loads.get(nm, 0) == c}
+    for (stmts, st, names) in sites:
+        if not all(nm in good for nm in names):
+            continue
+        i = next(j for j, x in enumerate(stmts) if x is st)
+        k = len(names)
+        nxt = stmts[i + 1:i + 1 + k]
+        new_t = ast.Tuple(elts=[x.targets[0] for x in nxt], ctx=ast.Store())
+        stmts[i:i + 1 + k] = [_loc(ast.Assign(targets=[new_t], value=st.value), st)]
 
 
 def _forward_substitute(fn: ast.FunctionDef) -> None:
@@ -1488,7 +1552,7 @@ def _splice_helpers(t: ast.Module) -> None:
             methods = {m.name: m for m in cls.body if isinstance(m, ast.FunctionDef)}
             for name, callee in methods.items():
                 if not name.startswith("_") or callee.decorator_list or name in ANCHOR_METHODS or name in MULTI_DEF or \
-                        (name.startswith("__") and name.endswith("__")):
+                        (name.startswith("__") and name.endswith("__") and name[2:-2] in _DUNDERS):
                     continue
                 refs = [n for n in ast.walk(t) if isinstance(n, ast.Attribute) and n.attr == name]
                 if not refs or len(refs) > MAX_USES:
@@ -1526,6 +1590,97 @@ def _splice_helpers(t: ast.Module) -> None:
             break
 
 
+def _list_iadd_to_append(t: ast.Module) -> None:
+    """N27: `X += [v]` where X is a local of the function whose every binding is a list display / list comprehension / list(..)
+    call is `X.append(v)` (a list's in-place add of a one-element list)."""
+    for fn in [n for n in ast.walk(t) if isinstance(n, (ast.FunctionDef, ast.AsyncFunctionDef))]:
+        binds: dict = {}
+        params = {a.arg for a in fn.args.posonlyargs + fn.args.args + fn.args.kwonlyargs}
+        for n in ast.walk(fn):
+            if isinstance(n, ast.Assign):
+                for tg in n.targets:
+                    if isinstance(tg, ast.Name):
+                        binds.setdefault(tg.id, []).append(n.value)
+                    else:
+                        for x in ast.walk(tg):
+                            if isinstance(x, ast.Name):
+                                binds.setdefault(x.id, []).append(None)
+            elif isinstance(n, (ast.For, ast.With, ast.comprehension, ast.NamedExpr)):
+                tgt = getattr(n, "target", None)
+                for x in (ast.walk(tgt) if tgt is not None else []):
+                    if isinstance(x, ast.Name):
+                        binds.setdefault(x.id, []).append(None)
+
+        def is_list(v):
+            return isinstance(v, (ast.List, ast.ListComp)) or (
+                isinstance(v, ast.Call) and isinstance(v.func, ast.Name) and v.func.id == "list")
+        lists = {k for k, vs in binds.items() if k not in params and vs and all(v is not None and is_list(v) for v in vs)}
+        if not lists:
+            continue
+        for stmts in _own_stmt_lists(fn):
+            for i, st in enumerate(stmts):
+                if isinstance(st, ast.AugAssign) and isinstance(st.op, ast.Add) and isinstance(st.target, ast.Name) \
+                        and st.target.id in lists and isinstance(st.value, ast.List) and len(st.value.elts) == 1 \
+                        and not isinstance(st.value.elts[0], ast.Starred):
+                    call = ast.Call(func=ast.Attribute(value=ast.Name(id=st.target.id, ctx=ast.Load()), attr="append", ctx=ast.Load()),
+                                    args=[st.value.elts[0]], keywords=[])
+                    stmts[i] = _loc(ast.Expr(value=call), st)
+
+
+_LEN_CHANGERS = {"append", "extend", "insert", "pop", "remove", "clear", "sort", "reverse"}
+
+
+def _zip_range_to_enumerate(t: ast.Module) -> None:
+    """N29: `for i, x in zip(range(len(X)), X)` -> `for i, x in enumerate(X)` (loops and comprehensions; X a plain name or an
+    attribute chain that the loop body neither rebinds nor resizes - zip would stop at the length read up front)"""
+    def plain(e):
+        while isinstance(e, ast.Attribute):
+            e = e.value
+        return isinstance(e, ast.Name)
+
+    def rewrite(it, scope_nodes):
+        if not (isinstance(it, ast.Call) and isinstance(it.func, ast.Name) and it.func.id == "zip" and len(it.args) == 2 and not it.keywords):
+            return None
+        r, x = it.args
+        if not (plain(x) and isinstance(r, ast.Call) and isinstance(r.func, ast.Name) and r.func.id == "range" and not r.keywords):
+            return None
+        if len(r.args) == 2 and isinstance(r.args[0], ast.Constant) and r.args[0].value == 0:
+            n_ = r.args[1]
+        elif len(r.args) == 1:
+            n_ = r.args[0]
+        else:
+            return None
+        if not (isinstance(n_, ast.Call) and isinstance(n_.func, ast.Name) and n_.func.id == "len" and len(n_.args) == 1
+                and ast.dump(n_.args[0]) == ast.dump(x)):
+            return None
+        xs = ast.unparse(x)
+        for b in scope_nodes:
+            for m in ast.walk(b):
+                if isinstance(m, ast.Call) and isinstance(m.func, ast.Attribute) and m.func.attr in _LEN_CHANGERS \
+                        and ast.unparse(m.func.value) == xs:
+                    return None
+                if isinstance(m, (ast.Name, ast.Attribute)) and isinstance(getattr(m, "ctx", None), (ast.Store, ast.Del)) \
+                        and ast.unparse(m) == xs:
+                    return None
+                if isinstance(m, ast.Delete) and any(isinstance(d, ast.Subscript) and ast.unparse(d.value) == xs for d in m.targets):
+                    return None
+                if isinstance(m, ast.AugAssign) and ast.unparse(m.target) == xs:
+                    return None
+        return _loc(ast.Call(func=ast.Name(id="enumerate", ctx=ast.Load()), args=[x], keywords=[]), it)
+
+    if SHADOWED_BUILTINS & {"enumerate", "zip", "range", "len"}:
+        return
+    for n in ast.walk(t):
+        if isinstance(n, ast.For):
+            new = rewrite(n.iter, n.body)
+            if new is not None:
+                n.iter = new
+        elif isinstance(n, (ast.ListComp, ast.GeneratorExp, ast.SetComp, ast.DictComp)) and len(n.generators) == 1:
+            new = rewrite(n.generators[0].iter, [n])
+            if new is not None:
+                n.generators[0].iter = new
+
+
 def _drop_local_annotations(t: ast.Module) -> None:
     """N20: inside function bodies `x: T = v` / `self.a: T = v` is `x = v` / `self.a = v` (class-level annotated assignments
     are model fields and are left alone)."""
@@ -1539,7 +1694,19 @@ def _drop_local_annotations(t: ast.Module) -> None:
 def normalize_module(tree: ast.Module) -> ast.Module:
     """Returns a canonicalised deep copy of the module tree."""
     t = copy.deepcopy(tree)
+    SHADOWED_BUILTINS.clear()
+    for n in ast.walk(t):
+        if isinstance(n, ast.Name) and isinstance(n.ctx, ast.Store) and n.id in ("list", "enumerate", "zip", "range", "len"):
+            SHADOWED_BUILTINS.add(n.id)
+        elif isinstance(n, (ast.FunctionDef, ast.ClassDef)) and n.name in ("list", "enumerate", "zip", "range", "len"):
+            SHADOWED_BUILTINS.add(n.name)
+        elif isinstance(n, ast.arg) and n.arg in ("list", "enumerate", "zip", "range", "len"):
+            SHADOWED_BUILTINS.add(n.arg)
+        elif isinstance(n, ast.alias) and (n.asname or n.name) in ("list", "enumerate", "zip", "range", "len"):
+            SHADOWED_BUILTINS.add(n.asname or n.name)
     _drop_local_annotations(t)
+    _list_iadd_to_append(t)
+    _zip_range_to_enumerate(t)
     t = _Expr().visit(t)
     if isinstance(t, ast.Module):
         _inline_private_helpers(t)
@@ -1561,6 +1728,7 @@ def normalize_module(tree: ast.Module) -> ast.Module:
                 _tail_duplicate_returns(n)
                 _unnest_else_after_exit(n)
                 _merge_extend_append_branches(n)
+                _fuse_unpack_through_temporaries(n)
                 _forward_substitute(n)
     t = _Stmt().visit(t)       # forms exposed by propagation (default-then-override etc.)
     t = _Expr().visit(t)       # map idioms exposed by inlining
